@@ -6,14 +6,30 @@
   references and the references taken by `_hold_ref(owner, obj)` (`_common.py`).  A buffer is
   released when the object that owns it is finalised: a NumPy array that allocated it, or a
   `Storage` built with `owns_memory=True` (`formats.py: Storage.__del__` frees every field).
-  The program holds references (`roots`), drops them in any order, and the runtime finalises
-  unreachable objects one at a time in any order.  Core Lean only; everything is executable.
+  The program holds references (`roots`, with multiplicity: an object's reference count is the number of
+  references the program holds plus the references from objects not yet finalised), drops them in any order,
+  and the runtime finalises unreachable objects one at a time in any order.
+
+  Storages come in two kinds (`Obj.om`, the `owns_memory` parameter of `ConcreteFormat._get_ctypes_type`):
+  an OWNING storage (result of add / reshape / asformat) is the allocation its fields point into and
+  releases it when finalised; a NON-OWNING storage (`from_constituent_arrays`: everything built from NumPy
+  or SciPy input, user buffers, `Array.copy`, `asarray(copy=True)`) points into EXTERNAL source buffers —
+  NumPy arrays, possibly attributes of a SciPy matrix — which are objects of the graph themselves, with
+  their own references, and which release their buffer when THEY are finalised.  The arrays handed back
+  (`get_constituent_arrays`, `to_numpy`, the attributes of `to_scipy`'s matrix) are objects too.
+
+  Which `_hold_ref` edges exist is not assumed: `Cfg.code` is computed from `SparseV.Gen.mlirHold*`, which
+  tools/tables.d/C20.py reads off the statements of `Storage.get_constituent_arrays` /
+  `Storage.from_constituent_arrays` (with the condition on `owns_memory` each loop runs under).
+  Core Lean only; everything is executable.
 -/
+import SparseV.Generated.MlirHold
 namespace SparseV
 namespace Own
 
 inductive Kind where
   | ndarray | storage | array | view
+  | scipy        -- a SciPy matrix: a container whose attributes are NumPy arrays (input of `asarray`, output of `to_scipy`)
   deriving DecidableEq, Repr
 
 structure Obj where
@@ -21,18 +37,36 @@ structure Obj where
   refs : List Nat      -- objects this object keeps alive
   bufs : List Nat      -- buffers its pointers address
   owns : List Nat      -- buffers released when it is finalised
+  om : Bool := false   -- a storage of the class built with `owns_memory=True`
   deriving Repr, DecidableEq
 
 def Obj.nil : Obj := { kind := .ndarray, refs := [], bufs := [], owns := [] }
 
-/-- which `_hold_ref` calls the code makes -/
+/-- which keep-alive edges the code makes, and which storage class the conversions instantiate -/
 structure Cfg where
-  holdInputs : Bool    -- `Storage.from_constituent_arrays`: `_hold_ref(storage, arr)` for every input array
-  holdStorage : Bool   -- `Storage.get_constituent_arrays`: `_hold_ref(arr, self)` for every returned view
+  holdInputs : Bool         -- `Storage.from_constituent_arrays` (non-owning class): `_hold_ref(storage, arr)` for every array given
+  holdViewOwning : Bool     -- `Storage.get_constituent_arrays` of an OWNING storage: `_hold_ref(arr, self)` for every returned view
+  holdViewNonOwning : Bool  -- the same loop in the class of a NON-OWNING storage
+  fromArraysOwns : Bool     -- `_conversions.from_constituent_arrays` instantiates the `owns_memory=True` class
+  holdOnBaseRoot : Bool     -- `Storage.get_constituent_arrays` walks `arr.base` down to the bottom of NumPy's base chain before
+                            --   `_hold_ref`: for an element type the MLIR runtime re-views (complex64/128, float16: the array
+                            --   returned is `raw.view(dtype)`) the keep-alive hangs on `raw`, not on the re-view
   deriving Repr, DecidableEq
 
-/-- the source as it stands -/
-def Cfg.code : Cfg := { holdInputs := true, holdStorage := true }
+/-- every edge, non-owning input storages: what the ownership theorems need -/
+def Cfg.full : Cfg :=
+  { holdInputs := true, holdViewOwning := true, holdViewNonOwning := true, fromArraysOwns := false, holdOnBaseRoot := true }
+
+/-- the source as it stands: read off `formats.py` / `_conversions.py` by tools/tables.d/C20.py -/
+def Cfg.code : Cfg :=
+  { holdInputs := Gen.mlirHoldInputs.eval Gen.mlirFromArraysOwns,
+    holdViewOwning := Gen.mlirHoldViews.eval true,
+    holdViewNonOwning := Gen.mlirHoldViews.eval false,
+    fromArraysOwns := Gen.mlirFromArraysOwns,
+    holdOnBaseRoot := Gen.mlirHoldOnBaseRoot }
+
+/-- does a view of this storage keep it alive -/
+def Cfg.holdView (cfg : Cfg) (om : Bool) : Bool := if om then cfg.holdViewOwning else cfg.holdViewNonOwning
 
 structure Heap where
   objs : List Obj      -- oldest first; an object's id is its position; objects are immutable
@@ -41,7 +75,7 @@ structure Heap where
   roots : List Nat     -- references held by the program (with multiplicity)
   dead : List Nat      -- finalised objects
   freed : List Nat     -- released buffers, most recent first
-  deriving Repr
+  deriving Repr, DecidableEq
 
 def Heap.empty : Heap := { objs := [], nbuf := 0, cont := [], roots := [], dead := [], freed := [] }
 
@@ -61,60 +95,104 @@ def reachable (h : Heap) : List Nat := markFrom h.objs h.objs.length h.roots
 inductive Cmd where
   | newArray (tok : Nat)              -- the program makes a NumPy array that owns a fresh buffer
   | npView (o : Nat)                  -- a NumPy view (`reshape(-1)`, `to_numpy`'s transpose): `base` keeps `o` alive
-  | mkStorage (srcs : List Nat)       -- `Storage.from_constituent_arrays(arrs)`
+  | mkStorage (srcs : List Nat)       -- `Storage.from_constituent_arrays(arrs)`: a NON-OWNING storage over source arrays
+  | mkScipy (srcs : List Nat)         -- a SciPy matrix whose attribute arrays are `srcs` (made by the program, or by `to_scipy`)
   | opStorage (toks : List Nat)       -- result of add/reshape/asformat: `owns_memory=True`, fresh buffers
   | opAliased (a : Nat)               -- DEFECT (rank-1 `reshape` to rank 1): an `owns_memory=True` result whose
                                       --   fields are the operand's buffers (MLIR folds the reshape away)
   | mkArray (s : Nat)                 -- `Array(storage=s, shape=…)`
   | view (a k : Nat)                  -- the `k`-th array of `a.get_constituent_arrays()`
+  | rawField (a k : Nat)              -- element types the MLIR runtime re-views (complex64/128, float16): the raw-pointer array
+                                      --   over the `k`-th field that `ranked_memref_to_numpy` builds first.  With the base walk
+                                      --   (`Cfg.holdOnBaseRoot`) this is the object the keep-alive hangs on — it is then exactly
+                                      --   a `view`; without it nothing is attached to it
+  | castView (r a : Nat)              --   … and `r.view(dtype)`, the array `get_constituent_arrays` returns for such a type, whose
+                                      --   NumPy `base` is `r`: with the base walk a plain NumPy view of `r` (exactly `npView r`);
+                                      --   without it `_hold_ref(this, storage)` is attached to THIS object
   | alias (o : Nat)                   -- one more reference to an object (`asformat` to the same format …)
   | drop (o : Nat)                    -- `del name`
   | finalize (o : Nat)                -- the runtime finalises an unreachable object
-  deriving Repr
+  deriving Repr, DecidableEq
+
+/-- NumPy's `base` of a view of `o`: `o` itself, unless `o` is a NumPy view of an array — then that array (chains of views
+collapse to the array at the bottom, so a view of a view does NOT keep the intermediate view alive) -/
+def npBase (h : Heap) (o : Nat) : Nat :=
+  if (h.obj o).kind = .ndarray ∧ (h.obj o).owns = [] then (h.obj o).refs.headD o else o
+
+/-- a NumPy view of `o` -/
+def mkNpView (h : Heap) (o : Nat) : Option (Obj × List Nat) :=
+  if (reachable h).contains o && ((h.obj o).kind == .ndarray || (h.obj o).kind == .view) then
+    some ({ kind := .ndarray, refs := [npBase h o], bufs := (h.obj o).bufs, owns := [] }, [])
+  else none
+
+/-- the raw-pointer array over the `k`-th field of the storage of `a`, with the keep-alive edge to the storage (if the code
+makes it for this kind of storage) -/
+def mkView (cfg : Cfg) (h : Heap) (a k : Nat) : Option (Obj × List Nat) :=
+  if (reachable h).contains a && (h.obj a).kind == .array then
+    match (h.obj a).refs with
+    | [s] =>
+      match (h.obj s).bufs[k]? with
+      | some b => some ({ kind := .view, refs := if cfg.holdView (h.obj s).om then [s] else [], bufs := [b], owns := [] }, [])
+      | none => none
+    | _ => none
+  else none
 
 /-- the object a creating command builds, with the contents of the buffers it allocates -/
 def mkObj (cfg : Cfg) (h : Heap) : Cmd → Option (Obj × List Nat)
   | .newArray tok => some ({ kind := .ndarray, refs := [], bufs := [h.nbuf], owns := [h.nbuf] }, [tok])
-  | .npView o =>
-    if (reachable h).contains o && ((h.obj o).kind == .ndarray || (h.obj o).kind == .view) then
-      some ({ kind := .ndarray, refs := [o], bufs := (h.obj o).bufs, owns := [] }, [])
-    else none
+  | .npView o => mkNpView h o
   | .mkStorage srcs =>
     if srcs.all fun s => (reachable h).contains s && ((h.obj s).kind == .ndarray || (h.obj s).kind == .view) then
       some ({ kind := .storage, refs := if cfg.holdInputs then srcs else [],
-              bufs := srcs.flatMap fun s => (h.obj s).bufs, owns := [] }, [])
+              bufs := srcs.flatMap fun s => (h.obj s).bufs,
+              owns := if cfg.fromArraysOwns then srcs.flatMap fun s => (h.obj s).bufs else [],
+              om := cfg.fromArraysOwns }, [])
+    else none
+  | .mkScipy srcs =>
+    if srcs.all fun s => (reachable h).contains s && ((h.obj s).kind == .ndarray || (h.obj s).kind == .view) then
+      some ({ kind := .scipy, refs := srcs, bufs := srcs.flatMap fun s => (h.obj s).bufs, owns := [] }, [])
     else none
   | .opStorage toks =>
     some ({ kind := .storage, refs := [], bufs := List.range' h.nbuf toks.length,
-            owns := List.range' h.nbuf toks.length }, toks)
+            owns := List.range' h.nbuf toks.length, om := true }, toks)
   | .opAliased a =>
     if (reachable h).contains a && (h.obj a).kind == .array then
       match (h.obj a).refs with
-      | [s] => some ({ kind := .storage, refs := [], bufs := (h.obj s).bufs, owns := (h.obj s).bufs }, [])
+      | [s] => some ({ kind := .storage, refs := [], bufs := (h.obj s).bufs, owns := (h.obj s).bufs, om := true }, [])
       | _ => none
     else none
   | .mkArray s =>
     if (reachable h).contains s && (h.obj s).kind == .storage then
       some ({ kind := .array, refs := [s], bufs := [], owns := [] }, [])
     else none
-  | .view a k =>
-    if (reachable h).contains a && (h.obj a).kind == .array then
+  | .view a k => mkView cfg h a k
+  | .rawField a k =>
+    if cfg.holdOnBaseRoot then mkView cfg h a k
+    else if (reachable h).contains a && (h.obj a).kind == .array then
       match (h.obj a).refs with
       | [s] =>
         match (h.obj s).bufs[k]? with
-        | some b => some ({ kind := .view, refs := if cfg.holdStorage then [s] else [], bufs := [b], owns := [] }, [])
+        | some b => some ({ kind := .ndarray, refs := [], bufs := [b], owns := [] }, [])
         | none => none
+      | _ => none
+    else none
+  | .castView r a =>
+    if cfg.holdOnBaseRoot then mkNpView h r
+    else if (reachable h).contains r && (reachable h).contains a && (h.obj a).kind == .array && (h.obj r).kind == .ndarray then
+      match (h.obj a).refs with
+      | [s] => some ({ kind := .ndarray, refs := r :: (if cfg.holdView (h.obj s).om then [s] else []),
+                       bufs := (h.obj r).bufs, owns := [] }, [])
       | _ => none
     else none
   | _ => none
 
 /-- the commands of the excluded region: results that alias their operand -/
-def Cmd.aliasing : Cmd → Bool
+def Cmd.excluded : Cmd → Bool
   | .opAliased _ => true
   | _ => false
 
-/-- a history is excluded when it contains a rank-1 → rank-1 `reshape` (the aliasing result) -/
-def ExcludedHistory (cs : List Cmd) : Bool := cs.any Cmd.aliasing
+/-- a history is excluded when it contains an aliasing result (what a rank-1 → rank-1 `reshape` returned) -/
+def ExcludedHistory (cs : List Cmd) : Bool := cs.any Cmd.excluded
 
 /-- add a new object; the program holds a reference to it -/
 def Heap.push (h : Heap) (x : Obj) (toks : List Nat) : Heap :=
@@ -142,6 +220,35 @@ def dangling (h : Heap) : List (Nat × Nat) :=
 /-- the unreachable objects that have not been finalised yet, oldest first -/
 def garbage (h : Heap) : List Nat :=
   (List.range h.objs.length).filter fun o => !(reachable h).contains o && !h.dead.contains o
+
+/-- `t = to_numpy(add(x, x))` for a complex64 / complex128 / float16 array: the result storage (object 0, owning),
+its array (1), the raw-pointer array over the values field (2), its re-view `data` (3), `t = data.reshape(…).transpose(…)`
+whose NumPy base is the raw array 2, not `data` (4); `data` goes out of scope when `to_numpy` returns, the temporary result
+array is dropped, the storage is finalised — which is possible only if nothing reachable keeps it alive -/
+def castWitness : List Cmd :=
+  [.opStorage [1], .mkArray 0, .drop 0, .rawField 1 0, .castView 2 1, .npView 3, .drop 2, .drop 3, .finalize 3,
+   .drop 1, .finalize 1, .finalize 0]
+
+/-- a history that defeats a configuration other than the code's: the first of
+(conversions building OWNING storages over the caller's arrays; no `_hold_ref(storage, arr)`; no `_hold_ref(view, storage)`
+for OWNING storages; the keep-alive on the re-view instead of the bottom of the base chain; no `_hold_ref(view, storage)` for
+NON-OWNING storages) that applies -/
+def edgeWitness (cfg : Cfg) : List Cmd :=
+  if cfg.fromArraysOwns then
+    [.newArray 7, .mkStorage [0], .drop 1, .finalize 1]                            -- the storage releases the caller's buffer
+  else if !cfg.holdInputs then
+    [.newArray 7, .mkStorage [0], .mkArray 1, .drop 1, .drop 0, .finalize 0]       -- x = asarray(a); del a
+  else if !cfg.holdViewOwning then
+    [.opStorage [1, 2, 3], .mkArray 0, .drop 0, .view 1 2, .drop 1, .finalize 1, .finalize 0]   -- v = r.get_constituent_arrays()[2]; del r
+  else if cfg.holdViewNonOwning && !cfg.holdOnBaseRoot then castWitness
+  else
+    -- a = np…; x = asarray(a); v = x.get_constituent_arrays()[0]; del a; del x   (to_numpy / to_scipy hand back such views)
+    [.newArray 7, .mkStorage [0], .mkArray 1, .drop 1, .view 2 0, .drop 0, .drop 2, .finalize 2, .finalize 1, .finalize 0]
+
+/-- CPython's reference count of `o`: the references the program holds plus the references from objects that have not
+been finalised -/
+def refcount (h : Heap) (o : Nat) : Nat :=
+  h.roots.count o + (((List.range h.objs.length).filter fun p => !h.dead.contains p).map fun p => (h.obj p).refs.count o).sum
 
 end Own
 end SparseV
